@@ -231,6 +231,9 @@ namespace ip {
 		}
 
 		// reset socket state
+		m_incoming_queue.clear();
+		m_reorder_buffer.clear();
+		m_outgoing_packets.clear();
 		m_queue_size = 0;
 		m_mss = 1475;
 		m_cwnd = m_mss * 2;
